@@ -40,8 +40,9 @@ type c04prog struct {
 	KillAt  []int     `json:"kill_at"` // per process: kill when it has made this many yields (0 = never)
 	// Sat: Names[0] starts Base below 2^64-1, so that the first increments
 	// saturate it (values never wrap, not even for an instant)
-	Sat  bool   `json:"sat,omitempty"`
-	Base uint64 `json:"base,omitempty"`
+	Sat        bool   `json:"sat,omitempty"`
+	NoWeekends bool   `json:"no_weekends,omitempty"`
+	Base       uint64 `json:"base,omitempty"`
 }
 
 type c04proc struct {
@@ -266,6 +267,7 @@ func c04Program(r *verifrt.Rand, kind int) c04prog {
 	case 4:
 		p.Name = "concurrent-create"
 		p.Names = []string{"a/first", "b/second"}
+		p.NoWeekends = r.Intn(2) == 0
 	default:
 		p.Name = "mixed"
 		p.Names = append(vfCollidingNames(r, 2, 0), "plain/x", "big/"+strings.Repeat("M", 4000))
@@ -302,7 +304,13 @@ func runC04(res *verifrt.Result, base string, p c04prog, st c03strategy, rnd *ve
 	e.dir, _ = os.MkdirTemp(base, "p")
 	telemetry.Default = telemetry.NewDir(e.dir)
 	os.MkdirAll(telemetry.Default.LocalDir(), 0o777)
-	os.WriteFile(filepath.Join(telemetry.Default.LocalDir(), "weekends"), []byte("3\n"), 0o666)
+	if p.NoWeekends {
+		// the processes find a fresh telemetry directory: the first opener also
+		// creates the week-end setting (and may die or be overtaken while doing so)
+		res.Hit("fresh-directory-without-weekends")
+	} else {
+		os.WriteFile(filepath.Join(telemetry.Default.LocalDir(), "weekends"), []byte("3\n"), 0o666)
+	}
 	now := time.Date(2024, 3, 4, 10, 0, 0, 0, time.UTC)
 	CounterTime = func() time.Time { return now }
 	munmap = func(d *mmap.Data) error { return e.q.Unmap(d.Data, "unmap") }
